@@ -31,6 +31,8 @@ def gen(rng, tier, i):
     return plan
 
 
+gen = _gen.with_lines(gen, ['receive', 'handle_post_request', '_trigger_event', 'run_handler', '_websocket_handler', 'close'])
+
 def run(plan, sched_values=None, sched_seed=0):
     h = run_server_scenario(plan, sched_values, sched_seed)
     f = oracles.Facts(h)
